@@ -49,6 +49,7 @@ def verify_function(world, qualname):
         st.locals[n] = v
         st.pc += world.type_facts(v, st.heap)
     st.pc += trace.wellformed(world, st.heap)
+    st.pc += world.const_facts(st.heap)
     st.entry_locals = dict(st.locals)
     st.entry_heap = st.heap.copy()
     # preconditions
@@ -90,6 +91,7 @@ def verify_function(world, qualname):
     res.used = ex.used_contracts
     res.trusted = ex.trusted_used
     res.ex = ex
+    ex._closure_heap = st.heap
     return res
 
 
@@ -112,6 +114,32 @@ def check_normal_exit(ex, c, st, val, rty, short, entry):
         cx.facts = []
     if c.kind != 'lemma':
         check_frame(ex, c, st, short, entry)
+    if c.kind == 'verify' and c.effects:
+        check_effects(ex, c, st, short, entry)
+
+
+def check_effects(ex, c, st, short, entry):
+    """the body's effect on the ghost traces equals what the contract's effect code does from the entry state"""
+    exp = entry.copy()
+    exp.locals = dict(entry.entry_locals)
+    exp.pc = list(st.pc)
+    exps = ex.run_ghost(c.effects, exp)
+    if len(exps) != 1:
+        # effect code with branches: one expected state per branch, matched by path condition
+        pass
+    for e2 in exps:
+        hy = [h for h in e2.pc[len(st.pc):]]
+        for name in trace.EXACT_CELLS + trace.LENGTH_CELLS:
+            ty = ex.W.parse_type(trace.CELLS[name])
+            a = st.heap.read_global(name, ty)
+            b = e2.heap.read_global(name, ty)
+            if a.t[0].eq(b.t[0]) and a.t[1].eq(b.t[1]):
+                continue
+            goal = a.t[0] == b.t[0]
+            if name in trace.EXACT_CELLS:
+                k = z3.Int(fresh_name('k'))
+                goal = z3.And(goal, z3.ForAll([k], z3.Implies(z3.And(0 <= k, k < a.t[0]), z3.Select(a.t[1], k) == z3.Select(b.t[1], k))))
+            ex.oblige(st, goal, '%s.effect.%s' % (short, name.strip('$')), 'effect-refinement', extra_hyps=hy)
 
 
 def check_exceptional_exit(ex, c, st, exc, short, entry):
@@ -133,7 +161,7 @@ def check_exceptional_exit(ex, c, st, exc, short, entry):
 
 def check_frame(ex, c, st, short, entry):
     """everything not named in `modifies` is unchanged (for objects allocated on entry)"""
-    ex.check_frame_against(c.modifies_l, entry.entry_heap, entry.entry_locals, st, short + '.frame', c.keeps_epoch)
+    ex.check_frame_against(c.modifies_l, entry.entry_heap, entry.entry_locals, st, short + '.frame', c.keeps_epoch, bool(c.effects) and c.kind == 'verify')
 
 
 # ---------------------------------------------------------------- SMT-LIB text of an obligation
@@ -223,7 +251,30 @@ def solve_in_process(world, ex, ob, unfold_depth=2, budgets=((1, 400),)):
     return 'open', time.time() - t0
 
 
-def discharge(world, ex, ob, unfold_depth, timeout_ms, seed, stages=True):
+def skolemize_and_instantiate(hyps, goal):
+    """Sound strengthening for a goal `forall xs. G`: prove G[c/xs] for fresh constants c, and add to the hypotheses the
+    ground instances of every universally quantified hypothesis (over Int variables) at c, c-1 and c+1.
+    Instances of hypotheses are consequences of the hypotheses; proving G for arbitrary c proves the goal."""
+    if not (z3.is_quantifier(goal) and goal.is_forall()):
+        return None
+    n = goal.num_vars()
+    consts = [z3.Const(fresh_name('sk_' + goal.var_name(i)), goal.var_sort(i)) for i in range(n)]
+    # substitute_vars: de Bruijn index 0 is the LAST bound variable
+    g2 = z3.substitute_vars(goal.body(), *reversed(consts))
+    ints = [c for c in consts if c.sort() == I]
+    extra = []
+    if ints:
+        cands = []
+        for c in ints:
+            cands += [c, c - 1, c + 1]
+        for h in hyps:
+            if z3.is_quantifier(h) and h.is_forall() and h.num_vars() == 1 and h.var_sort(0) == I:
+                for t in cands:
+                    extra.append(z3.substitute_vars(h.body(), t))
+    return g2, extra
+
+
+def discharge(world, ex, ob, unfold_depth, timeout_ms, seed, stages=True, effort=1):
     """Decide one obligation in process.  Stages: the goal under growing SUBSETS of the hypotheses (any `unsat`
     discharges it), then all hypotheses, then cvc5 on the SMT-LIB text if z3 says unknown."""
     import time
@@ -234,26 +285,47 @@ def discharge(world, ex, ob, unfold_depth, timeout_ms, seed, stages=True):
     if facts is None:
         facts = ex.S.unfold(ob.apps, unfold_depth, Heap()) if ob.apps else []
         _UNFOLD_MEMO[(key, unfold_depth)] = facts
-    allh = list(ob.hyps) + facts
-    plan = [(1, None, 400), (4, 1, 3000), (2, None, 2000), (6, 2, 4000), (4, None, 4000)] if stages else []
-    prev = -1
-    for rounds, rq, ms in plan:
+    allh = list(ob.hyps) + facts + spec_axioms(world, ex, ob) + ex.entry_heap_closure()
+    base = [(1, None, 500), (4, 1, 1500), (2, None, 1500), (6, 2, 2000), (4, None, 2500)]
+    # z3's quantifier instantiation is unstable on some obligations (measured: ~2/3 success per attempt on the
+    # hardest ones): a portfolio of seeds follows before the obligation is given up as undecided.  Every success is
+    # a proof (`unsat` under a subset of the hypotheses), so the portfolio cannot make anything unsound.
+    plan = [(r, q, ms, seed) for r, q, ms in base]
+    if stages and effort >= 1:
+        for extra in ((101, 202, 303, 404) if effort == 1 else (11, 22, 33, 44, 55, 66, 77, 88)):
+            ms2 = 2500 * effort
+            plan += [(4, 1, ms2, seed + extra), (2, None, ms2, seed + extra), (6, 2, ms2, seed + extra)]
+    if not stages:
+        plan = []
+    prev = {}
+    for rounds, rq, ms, sd in plan:
         rel = relevant_subset(allh, ob.goal, rounds, rq)
-        if len(rel) == prev:
+        if prev.get(sd) == len(rel):
             continue
-        prev = len(rel)
-        s = z3.Solver()
-        s.set('timeout', min(ms, timeout_ms))
-        s.set('random_seed', seed)
-        for a in _bg(world):
-            s.add(a)
-        for f in lit_facts():
-            s.add(f)
-        for h in rel:
-            s.add(h)
-        s.add(z3.Not(ob.goal))
-        if s.check() == z3.unsat:
-            return {'verdict': 'unsat', 'solver': 'z3', 'time_s': round(time.time() - t0, 3), 'stage': 'hyps-within-%d%s' % (rounds, '' if rq is None else '/q%d' % rq)}
+        prev[sd] = len(rel)
+        variants = [(ob.goal, [])]
+        sk = skolemize_and_instantiate(rel, ob.goal) if rounds > 1 else None
+        if sk is not None:
+            variants.append(sk)
+        for vi, (goal, extra) in enumerate(variants):
+            s = z3.Solver()
+            s.set('timeout', min(ms, timeout_ms))
+            s.set('random_seed', sd)
+            for a in _bg(world):
+                s.add(a)
+            for f in lit_facts():
+                s.add(f)
+            for h in rel:
+                s.add(h)
+            for h in extra:
+                s.add(h)
+            s.add(z3.Not(goal))
+            if s.check() == z3.unsat:
+                return {'verdict': 'unsat', 'solver': 'z3', 'time_s': round(time.time() - t0, 3),
+                        'stage': 'hyps-within-%d%s%s' % (rounds, '' if rq is None else '/q%d' % rq, '+inst' if vi else '')}
+    if effort == 0:
+        return {'verdict': 'unknown', 'solver': 'z3', 'time_s': round(time.time() - t0, 3), 'stage': 'short', 'reason': 'budget of this shard used up by earlier undecided obligations',
+                'smt2': obligation_smt2(world, ex, ob, unfold_depth)}
     text = obligation_smt2(world, ex, ob, unfold_depth)
     r = solve.solve_one(('x', text, timeout_ms, seed, stages))
     r.pop('name', None)
@@ -305,12 +377,30 @@ def obligation_smt2(world, ex, ob, unfold_depth=2):
         s.add(a)
     hyps = list(ob.hyps)
     facts = ex.S.unfold(ob.apps, unfold_depth, Heap()) if ob.apps else []
+    facts += spec_axioms(world, ex, ob)
+    facts += ex.entry_heap_closure()
+    for f in lit_facts():
+        s.add(f)
+    for h in hyps + facts:
+        s.add(h)
+    s.add(z3.Not(ob.goal))
+    return s.to_smt2()
+
+
+_AXIOM_MEMO = {}
+
+
+def spec_axioms(world, ex, ob):
+    """quantified definitions of the recursive spec functions that occur, and the proved lemmas about them"""
+    facts = []
     seen_fns = {}
     for sf, _, _ in ob.apps:
         if sf.recursive and sf.quantified_axiom:
             seen_fns[sf.name] = sf
     for sf in seen_fns.values():
-        facts.append(ex.S.definitional_axiom(sf))
+        if ('def', sf.name) not in _AXIOM_MEMO:
+            _AXIOM_MEMO[('def', sf.name)] = ex.S.definitional_axiom(sf)
+        facts.append(_AXIOM_MEMO[('def', sf.name)])
     names = set(sf.name for sf, _, _ in ob.apps)
     for lc in contracts.LEMMAS.values():
         if ob.func.startswith('lemma.'):
@@ -319,14 +409,11 @@ def obligation_smt2(world, ex, ob, unfold_depth=2):
             if me in order and order.index(lc.qualname.split('.', 1)[1]) >= order.index(me):
                 continue        # a lemma may only rely on lemmas stated before it (no circular reasoning)
         if getattr(lc, 'axiom_for', ()) and names & set(lc.axiom_for) and ob.func != lc.qualname:
-            facts.append(lemma_axiom(world, ex, lc))
+            if ('lem', lc.qualname) not in _AXIOM_MEMO:
+                _AXIOM_MEMO[('lem', lc.qualname)] = lemma_axiom(world, ex, lc)
+            facts.append(_AXIOM_MEMO[('lem', lc.qualname)])
             USED_LEMMA_AXIOMS.add(lc.qualname)
-    for f in lit_facts():
-        s.add(f)
-    for h in hyps + facts:
-        s.add(h)
-    s.add(z3.Not(ob.goal))
-    return s.to_smt2()
+    return facts
 
 
 USED_LEMMA_AXIOMS = set()
